@@ -50,6 +50,7 @@ ae42e46 C19 C19-upgrade-headers-on-non-get
 a0f137c C06 C06-unsubscribe-false-right-after-accept-response
 97dc7d4 C12 C12-repeated-id-last-answer-wins
 9f80659 C08 C08-subscribe-accept-reply-not-bounded
+f98c74e C06 C06-slot-held-after-rejection-seen
 LIST
 rm -rf /verif/replays
 (cd /verif/sim && cargo build --release --offline -q 2>/dev/null)
